@@ -119,9 +119,10 @@ def placeCs (cs t : Bits) : Bits :=
   putLoop ((List.range V.csCells.length).map
     (fun j => (V.cell (V.csCells.getD j (0, 0)).1 (V.csCells.getD j (0, 0)).2, j))) cs t
 
-/-- `table[row] = Hamming.generate(table[row][:k])` -/
+/-- `table[row] = Hamming.generate(table[row][:k])`: reads cells `(row, 0 … k-1)`, assigns the whole row -/
 def rowStep (r : Nat) (t : Bits) : Bits :=
-  t.take (r * V.W) ++ V.H.gen (((t.drop (r * V.W)).take V.W).take V.H.k) ++ t.drop (r * V.W + V.W)
+  let word := V.H.gen (gather ((List.range V.H.k).map (fun c => V.cell r c)) t)
+  putLoop ((List.range V.W).map (fun c => (V.cell r c, c))) word t
 
 /-- the body of the three `set_parity` functions: a column without its parity cell gets one appended,
 then the last cell becomes the XOR of the others (`odd` inverts it: `not column[0]`) -/
